@@ -99,7 +99,7 @@ func (h *timeoutHandler) ServeHTTP(w http.ResponseWriter, r *http.Request) {
 
 		// We don't need to write header 200, because it's written by default.
 		// If we write it again, it will cause a warning: `http: superfluous response.WriteHeader call`.
-		if tw.code != http.StatusOK {
+		if tw.code != http.StatusOK && !tw.flushed {
 			w.WriteHeader(tw.code)
 		}
 		w.Write(tw.wbuf.Bytes())
@@ -129,6 +129,7 @@ type timeoutWriter struct {
 	mu          sync.Mutex
 	timedOut    bool
 	wroteHeader bool
+	flushed     bool
 	code        int
 }
 
@@ -151,6 +152,14 @@ func (tw *timeoutWriter) Flush() {
 	header := tw.w.Header()
 	for k, v := range tw.h {
 		header[k] = v
+	}
+
+	// the first flush commits the response, send the status code recorded so far with it.
+	if !tw.flushed {
+		tw.flushed = true
+		if tw.code != http.StatusOK {
+			tw.w.WriteHeader(tw.code)
+		}
 	}
 
 	tw.w.Write(tw.wbuf.Bytes())
